@@ -75,6 +75,7 @@ type Exec struct {
 	rank   [maxThreads]int
 
 	steps      int
+	evals      int64
 	timerFires int
 	spins      int
 	status     Status
